@@ -73,7 +73,13 @@ FormatFail(w, f5, res, prec, out) ==
              of5 == Val(out.fd) * P10(5 - Len(out.fd))
              diff == (ow - w) * 100000 + (of5 - f5)      \* out - duration(truncated to 5 dp), units 1e-5
              u == P10(5 - prec)
-         IN (IF n \in 1..3 /\ \A i \in 2..n : out.fields[i] < 60 /\ out.widths[i] = 2 THEN {} ELSE {"format_field_not_below_60"})
+         \* seconds are below 60 in every form, minutes whenever there is a minutes field (60 s / 60 min
+         \* roll over into the next field); non-leading fields are two digits wide
+         IN (IF /\ n \in 1..3
+                /\ out.fields[n] < 60
+                /\ (n >= 2 => out.fields[n - 1] < 60)
+                /\ \A i \in 2..n : out.widths[i] = 2
+             THEN {} ELSE {"format_field_not_below_60"})
             \cup (IF Len(out.fd) = prec /\ out.dot = (prec > 0) THEN {} ELSE {"format_wrong_number_of_decimals"})
             \cup (IF n \in 1..3 /\ (ow > w + 1 \/ ow < w) THEN {"format_value_off_by_seconds"}
                   ELSE IF n \notin 1..3 THEN {}
